@@ -8,9 +8,18 @@ pub mod sess;
 
 use ctx::{Ctx, Tier};
 
+pub static LAST_PANIC: std::sync::Mutex<String> = std::sync::Mutex::new(String::new());
+
 fn main() {
     // panics inside the subject are caught at the call boundary; keep stderr quiet
-    std::panic::set_hook(Box::new(|_| {}));
+    if std::env::var("SNOWMC_PANIC").is_err() {
+        std::panic::set_hook(Box::new(|info| {
+            // remember the most recent panic (with its location) for the machinery-error report
+            if let Ok(mut g) = LAST_PANIC.lock() {
+                *g = format!("{info}");
+            }
+        }));
+    }
     let args: Vec<String> = std::env::args().collect();
     if args.len() < 2 {
         eprintln!("usage: snowmc <Cxx> [--tier quick|thorough] [--replay file]");
@@ -45,7 +54,14 @@ fn main() {
     if let Some(path) = replay {
         std::process::exit(props::replay(&id, &path));
     }
-    let code = props::run(&id, tier);
+    let code = match std::panic::catch_unwind(|| props::run(&id, tier)) {
+        Ok(c) => c,
+        Err(_) => {
+            // a panic of the harness itself (not of the subject, which is caught at the call boundary)
+            eprintln!("MACHINERY-ERROR: the explorer panicked: {}", LAST_PANIC.lock().map(|g| g.clone()).unwrap_or_default());
+            2
+        },
+    };
     std::process::exit(code);
 }
 
